@@ -25,11 +25,12 @@ CATALOGUE = [
 HOSTILE_LINES = [
     b"\xff\xfe invalid utf8", b"nul\x00byte", b"lone\rcr", b"TXTPP#" + b"a" * 70000, b"-" * 5000 + b"TXTPP#run echo long-prefix",
     "　-TXTPP#run echo ideographic-space".encode(), "é TXTPP#write x".encode(), b"  y", b"   y", b"    y",
-    "é ".encode() + b"cont", b"TXTPP#tag ", b"TXTPP#tag", b"-TXTPP#temp", b"-TXTPP#temp .", b"-TXTPP#temp ..", b"-TXTPP#temp sub",
+    "é ".encode() + b"cont", b"  ", b" ", b"   ", "  é".encode(), " —".encode(), "— TXTPP#write hello".encode(), "—— TXTPP#run echo".encode(),
+    "😀 TXTPP#temp t1".encode(), "  😀".encode(), "   é".encode(), b"TXTPP#tag ", b"TXTPP#tag", b"-TXTPP#temp", b"-TXTPP#temp .", b"-TXTPP#temp ..", b"-TXTPP#temp sub",
     b"-TXTPP#temp /", b"-TXTPP#temp sub/deeper/none/t", b"TXTPP#include .", b"TXTPP#include /", b"TXTPP#include /dev/null",
     b"TXTPP#include sub", b"TXTPP#include s.txt.txtpp", b"TXTPP#include s.txt", b"TXTPP#after nowhere", b"TXTPP#after s.txt",
     b"TXTPP#include", b"TXTPP#after", b"-TXTPP#run exit 300", b"-TXTPP#run kill -9 $$", b"-TXTPP#run printf '\\377\\376'",
-    b"-TXTPP#run head -c 300000 /dev/zero", b"-TXTPP#write \xc3", b"\xe2\x82", b"-TXTPP#write", b"-\xff", b"TXTPP#TXTPP#TXTPP#",
+    b"-TXTPP#run cat big.bin", b"-TXTPP#write \xc3", b"\xe2\x82", b"-TXTPP#write", b"-\xff", b"TXTPP#TXTPP#TXTPP#",
     "TXTPP#tag é".encode(), "xéy".encode(), "-TXTPP#temp té.tmp".encode(), b"TXTPP#include d1.txtpp", b"\t \t", b"TXTPP# ", b"TXTPP#\t",
     b"-TXTPP#run echo " + b"z" * 200000, b"TXTPP#include ../b/p1", b"TXTPP#include ./././p1", b"-TXTPP#temp p1", b"-TXTPP#temp s.txt.txtpp.x",
 ]
@@ -76,6 +77,8 @@ def gen_case(rng, i):
     if rng.random() < 0.5:
         src = mutate(rng, src)
     files = [dict(path="b/s.txt.txtpp", b64=b64(src)), dict(path="b/sub/.keep", text="")]
+    if b"big.bin" in src:
+        files.append(dict(path="b/big.bin", text="0123456789abcdef\n" * 9000))
     # hostile environment
     r = rng.random()
     if r < 0.08:
@@ -116,6 +119,72 @@ def gen_case(rng, i):
     return dict(id=f"h{i}", template="ppenv", report="changed", files=files, steps=steps), dict(mode=mode, threads=threads, inputs=inputs, shell=shell, cli=via_cli, src=src[:300])
 
 
+def pure_hostile(rep, wd, rng, quick):
+    """the pure pieces (directive detection, continuation, tag store) on a systematic hostile space: non-ASCII characters of
+    2, 3 and 4 bytes in leading whitespace, prefix, arguments, tag names; every indentation / space count around the
+    character and byte length of the prefix; degenerate arguments. Any panic inside the code under test is a violation."""
+    import itertools
+    from pure_engine import vh_pure
+    wss = ["", " ", "  ", "\t", "\u00a0", "\u3000 "]
+    prefixes = ["-", "// ", "é", "é ", "— ", "😀", "/*\t", "", "—é ", "é\u00a0", "x😀 "]
+    types = ["run", "", "temp", "write", "include", "tag"]
+    args = ["", " a", " é", " \u00a0"]
+    dlines = [w + p + "TXTPP#" + t + a for w in wss for p in prefixes for t in types for a in args]
+    tails = ["", "x", "é", "—", "😀x", " ", "\t", "\u00a0", "é é", "x "]
+    cands = set()
+    for w in wss:
+        for k in range(0, 10):
+            for t in tails:
+                cands.add(w + " " * k + t)
+        for p in prefixes:
+            for t in tails:
+                cands.add(w + p + t)
+                cands.add(w + p.rstrip() + t)
+                cands.add(w[:-1] + p + t if w else p + t)
+    cands = sorted(cands)
+    reqs = [dict(op="addline", dline=d, cands=cands) for d in dlines]
+    got = vh_pure(reqs, wd, "hostile-cont")
+    calls = 0
+    for r, g in zip(reqs, got):
+        if g.get("panic") is not None:
+            rep.violation(f"pure:addline:{r['dline']!r}", f"Directive::detect_from / add_line panicked on directive line {r['dline']!r} with some candidate of the hostile set: {g['panic'][:300]}",
+                          dict(dline=r["dline"], panic=g["panic"]))
+            # find one offending candidate
+            for c in cands:
+                one = vh_pure([dict(op="addline", dline=r["dline"], cands=[c])], wd, "hostile-one")[0]
+                if one.get("panic") is not None:
+                    rep.violation(f"pure:addline:{r['dline']!r}", f"add_line panics: directive line {r['dline']!r}, following line {c!r}: {one['panic'][:300]}", dict(dline=r["dline"], cand=c))
+                    break
+        calls += len(cands)
+    alpha = [" ", "\t", "\u00a0", "-", "TXTPP#", "TXTPP", "#", "run", "tag", "é", "—", "😀", "\u3000", "x", "\r", "\x00"]
+    lines = ["".join(t) for n in range(0, 4 if quick else 5) for t in itertools.product(alpha, repeat=n)]
+    got = vh_pure([dict(op="detect", line=x) for x in lines], wd, "hostile-detect")
+    for x, g in zip(lines, got):
+        if g.get("panic") is not None:
+            rep.violation(f"pure:detect:{x!r}", f"Directive::detect_from panicked on {x!r}: {g['panic'][:300]}", dict(line=x))
+    calls += len(lines)
+    names = ["", "a", "é", "—", "éa", "aé", "😀", " ", "ab", "b\u00a0"]
+    contents = ["", "é", "a\né", "—\r\n", "\n", "😀", "x\r", "\r\n\r\n", "é" * 50]
+    tlines = ["", "é", "aé—", "x a é", "😀😀", "—a—", "ab aé", "\u00a0", "a" * 40 + "é"]
+    sess = []
+    for _ in range(3000 if quick else 40000):
+        steps = []
+        for _ in range(rng.randint(1, 4)):
+            steps.append(["create", rng.choice(names)])
+            if rng.random() < 0.8:
+                steps.append(["store", rng.choice(contents)])
+        for _ in range(rng.randint(1, 3)):
+            steps.append(["inject", rng.choice(tlines), rng.choice(["\n", "\r\n"])])
+            steps.append(["has"])
+        sess.append(steps)
+    got = vh_pure([dict(op="tags", steps=x) for x in sess], wd, "hostile-tags")
+    for x, g in zip(sess, got):
+        if g.get("panic") is not None:
+            rep.violation(f"pure:tags:{json.dumps(x)[:80]}", f"TagState panicked on {x}: {g['panic'][:300]}", dict(steps=x))
+    calls += len(sess)
+    return dict(pure_function_hostile_calls=calls, hostile_directive_lines=len(dlines), hostile_candidates=len(cands))
+
+
 def check():
     rep = Report("C18", "exploration")
     build_harness()
@@ -154,14 +223,19 @@ def check():
                 args = {"build": [], "needed": ["-N"], "verify": ["verify"], "clean": ["clean"]}[mode] + ["-q", "-j", str(t), "s.txt"]
                 cases.append(dict(id=f"cj{t}{mode}", files=files, report="changed", steps=[dict(run=dict(via="cli", base="b", args=args))]))
                 meta.append(dict(mode=mode, threads=t, inputs=["s.txt"], shell="", cli=True, src=b"plain"))
+    pure_stats = pure_hostile(rep, wd, rng, quick)
     res = vh_cases(cases, wd, "c18", procs=14)
     verdicts = {}
     nontrivial = set()
     for m, r in zip(meta, res):
+        if r.get("skipped"):
+            continue   # the runner stopped after too many hung / panicked runs (each one already reported)
         st = r["steps"][-1]
         v = st["verdict"]
         verdicts[v] = verdicts.get(v, 0) + 1
         nontrivial.add((m["mode"], m["threads"], v, tuple(m["inputs"]), m["shell"], m["cli"], len(m["src"]) % 7))
+        if v == "cmd-timeout":
+            continue   # a (mutated) shell command that does not terminate: not txtpp's doing
         if v not in ("ok", "err"):
             key = f"robust:{v}:threads={m['threads']}" if m["threads"] == 0 else f"robust:{v}:{m['mode']}:{m['src'][:40]!r}"
             rep.violation(key, f"run ended in {v}: {st.get('detail') or st.get('stderr', '')[-300:]} [mode {m['mode']} threads {m['threads']} inputs {m['inputs']} "
@@ -170,6 +244,7 @@ def check():
                                step={k: v2 for k, v2 in st.items() if k != 'tree'}))
     rep.coverage.update(dict(
         evaluations=len(cases), distinct_nontrivial=len(nontrivial), verdicts=verdicts,
+        **pure_stats,
         design_level=dict(worker_panic_hangs_coordinator=panic_hangs, depmgr_unwrap_safe_states=r2["states"]),
         rule="seeded: sources of 0-8 lines drawn from the line catalogue and a list of hostile lines (invalid UTF-8, NUL, lone CR, 70 kB and 200 kB "
              "lines, non-ASCII whitespace / prefixes, degenerate directive arguments, self/cyclic includes), random terminators, byte-level "
